@@ -33,7 +33,7 @@ BAD = {
     'bad_version': lambda ty: hdr(2, ty, 0),
     'str_wrap': lambda ty: hdr(1, 0x10, 5) + b'\x05\xff\xff\xff\xff',
     'arr_huge': lambda ty: hdr(1, 0x10, 7) + b'\x07\x01\xff\xff\xff\xff\x00',
-    'deep_nest': lambda ty: hdr(1, 0x10, 6 * 400000 + 1) + b'\x07\x01\x01\x00\x00\x00' * 400000 + b'\x00',
+    'deep_nest': lambda ty: hdr(1, 0x10, 6 * 200000 + 1) + b'\x07\x01\x01\x00\x00\x00' * 200000 + b'\x00',
     'err_long': lambda ty: hdr(1, 0x11, 1000) + b'E' * 1000,
 }
 EXITS = {'exit0': 'x0', 'exit1': 'x1', 'kill9': 'k'}
@@ -215,12 +215,13 @@ def run_matrix(ck, b, ref, K, sig_ignored):
     cs = H.cells(K)
     with ThreadPoolExecutor(8) as ex:
         obs = list(ex.map(lambda c: H.run_cell(env0, c, hang_s=1.5), cs))
+    with ThreadPoolExecutor(12) as ex:
+        models = list(ex.map(lambda c: model_outcomes(ref, c, ncalls, sig_ignored), cs))
     mism, viol = 0, 0
     dist = {}
     outcomes = {}
-    for c, o in zip(cs, obs):
+    for c, o, ms in zip(cs, obs, models):
         cls = H.classify(o, ncalls)
-        ms = model_outcomes(ref, c, ncalls, sig_ignored)
         allowed = [m[0] for m in ms]
         name = '%s/%d/%s' % (c['step'], c['k'], c['fault'])
         ck.count(('cell', name), nontrivial=True)
@@ -292,7 +293,13 @@ def read_signals():
 
 def run(ck):
     b = ck.build('plain')
-    ck.gen(['gen_cop', 'gen_signals'])
+    try:
+        ck.gen(['gen_cop', 'gen_signals'])
+    except Exception as e:
+        # the sources no longer have the shape the translator reads (e.g. a limit the model describes is gone): the theorems
+        # are not re-established; keep going with the last generated constants to look for a concrete failing input
+        ck.proof['broken'].append('translator: %s' % str(e)[:300])
+        ck.note('translator failed: %s' % str(e)[:200])
     sig = read_signals()
     proved = ck.prove()
     if ck.thorough and proved:
@@ -311,7 +318,7 @@ def run(ck):
     ck.cov['rule'] = ('every cell of {before READY, after READY, before reading request k, instead of reply k, in the middle of reply k} x k<=K x '
                       '{exit0, exit1, SIGKILL, close stdin, close stdout, close both, hang-then-exit, truncated, oversized length, wrong type, '
                       'garbage, wrong version, undecodable value (string length 0xffffffff), undecodable value (array count 0xffffffff), undecodable value '
-                      '(400000 nested arrays), over-long error text}; '
+                      '(200000 nested arrays), over-long error text}; '
                       'one real nano_vm --isolate-ffi run per cell; all cells non-trivial (a fault is injected in each)')
     ck.extra['exhaustive'] = True
     ck.trusted += ['OS rules of NV/Proto/CopClient.v (pipe write/read/EOF/EPIPE/SIGPIPE, waitpid, SIGTERM) as a description of POSIX',
